@@ -63,7 +63,36 @@ func drawAnyMapping(t *rapid.T, cl *caseLog) (gen.MapSpec, mapping.IndexMapping)
 		g = math.Nextafter(1, 2)
 	}
 	var off float64
-	switch rapid.IntRange(0, 8).Draw(t, "offclass") {
+	switch rapid.IntRange(0, 9).Draw(t, "offclass") {
+	case 9:
+		// an offset engineered so that, for some index i0, (i0 - offset)/multiplier - what the inverse of the index
+		// function is applied to - is an integer k or one of its float neighbours (the boundary between two binades of the
+		// interpolated mappings; finding F7 lived one ulp below such an integer)
+		mult := 1 / math.Log2(g)
+		if kind == "log" {
+			mult = 1 / math.Log(g)
+		}
+		k := float64(rapid.IntRange(-12, 12).Draw(t, "engk"))
+		if rapid.IntRange(0, 3).Draw(t, "engkbig") == 0 {
+			k = float64(rapid.IntRange(-900, 900).Draw(t, "engkbig2"))
+		}
+		tgt := gen.NextUp(k, rapid.IntRange(-2, 2).Draw(t, "engulps"))
+		if k == 0 {
+			tgt = rapid.SampledFrom([]float64{0, 5e-324, -5e-324, 0x1p-53, -0x1p-53, 1e-17, -1e-17, 0x1p-1074 * 4, -0x1p-60}).Draw(t, "engzero")
+		}
+		i0 := rapid.SampledFrom([]int{0, 0, 1, -1, 7, -300, 100000}).Draw(t, "engi0")
+		d := tgt * mult
+		// among d and its neighbours take one for which the division gives the target back, if any
+		for _, c := range []float64{d, gen.NextUp(d, 1), gen.NextUp(d, -1), gen.NextUp(d, 2), gen.NextUp(d, -2)} {
+			if c/mult == tgt {
+				d = c
+				break
+			}
+		}
+		off = float64(i0) - d
+		cl.hint = []int{i0 - 1, i0, i0 + 1}
+		cl.label("offset:engineered-integer-boundary")
+		cl.labelIf((float64(i0)-off)/mult == tgt, "offset:engineered-exact-hit")
 	case 0:
 		off = 0
 		cl.label("offset:0")
@@ -155,6 +184,16 @@ func c03Values(t *rapid.T, m mapping.IndexMapping, cl *caseLog) []float64 {
 		vs = append(vs, clamp(gen.NextUp(m.LowerBound(i), rapid.IntRange(-4, 4).Draw(t, "ulps"))))
 	}
 	cl.label("probe:bin-edge")
+	// (a'') indexes a generator asked for: both edges of those bins, a few ulps and a small relative step inside
+	for _, i := range cl.hint {
+		if i < imin || i >= imax {
+			continue
+		}
+		lo, hi := m.LowerBound(i), m.LowerBound(i+1)
+		for _, v := range []float64{gen.NextUp(lo, 1), gen.NextUp(lo, 3), lo * (1 + 1e-9), gen.NextUp(hi, -1), gen.NextUp(hi, -3), hi * (1 - 1e-9), m.Value(i)} {
+			vs = append(vs, clamp(v))
+		}
+	}
 	// (a') the neighbourhood of bin edges at every scale between a few ulps and a fraction of a bin: edge*(1 +- 10^-u),
 	// u uniform in [2.5, 16] (an error in the floor of the index computation that is not confined to the last few
 	// ulps shows at these distances, far too close to the edge for a uniformly drawn value to fall there)
